@@ -2,7 +2,7 @@
    (bool/option/list/prod/unit/sumbool mapped to OCaml's); N, Z, positive and
    nat stay the extracted inductive datatypes.  No Extract Constant. *)
 From Coq Require Extraction ExtrOcamlBasic.
-From SyModel Require Import Adler Delta Filter Bisync Engine Wire Sparse Verify Links Temp Crash.
+From SyModel Require Import Adler Delta Filter Bisync Engine Wire Sparse Verify Links Temp Crash Caches.
 Extraction Language OCaml.
 Set Extraction AccessOpaque.
 Extraction "model.ml"
@@ -15,4 +15,5 @@ Extraction "model.ml"
   Verify.verify Verify.verify_exit
   Links.sync_link Links.wrote_through
   Temp.temp_name Temp.temp_path Temp.with_extension Temp.pinned_temp_path Temp.run_tasks Temp.fpath_eqb
-  Crash.crash_state Crash.program_ok Crash.replans Crash.uses_temp Crash.rerun Crash.holds_source.
+  Crash.crash_state Crash.program_ok Crash.replans Crash.uses_temp Crash.rerun Crash.holds_source
+  Caches.db_lookup Caches.db_store Caches.dc_update Caches.dc_dir_mtime Caches.dc_empty Caches.plan_resume Engine.mtime_matches.
